@@ -179,3 +179,107 @@ Example ex_d6 : (* the zero-area hole of the repaired defect is not flipped *)
   orient_polygons (flatz [(0,0); (2,0); (2,2); (0,0); (1,1); (2,2); (3,3); (1,1)]%Z) [0; 2] [0; 8; 16]
   = flatz [(0,0); (2,0); (2,2); (0,0); (1,1); (2,2); (3,3); (1,1)]%Z.
 Proof. vm_compute. reflexivity. Qed.
+
+(* ==================================================================== *)
+(* The same function with the arithmetic the code really performs and values of ANY type
+   (Model/FloatOrient.v): the decision "flip ring j" is taken on the binary64 area computed by
+   compute_area (Model/FloatMeasures.v, bit exact) on np.float64(values[i]) -- no tolerance,
+   no threshold, whatever the magnitude of the area --, and the values moved are the array's
+   own values (float32 / float64 bit patterns, int16 / int32 / int64 integers, also those that
+   binary64 cannot hold).  Tied to /repo by harness/c15_float.py on coordinates that are not
+   small integers.                                                                          *)
+(* ==================================================================== *)
+From Coq Require Import PrimFloat.
+From SP Require Import Harness Model.FloatMeasures Model.FloatOrient Spec.FloatOrientSpec
+  Proofs.FloatOrientProofs.
+
+(* every ring is kept or exactly reversed, according to the decision [f_flips] taken on the
+   binary64 areas of the ORIGINAL values; no value is created, rounded or altered; nothing
+   else in the buffer moves.  Any value type A, any conversion to binary64, any values (NaN,
+   infinities, -0.0, integers beyond 2^53), any ring offsets. *)
+Theorem C15_float_rings_same_or_reversed :
+  forall (A : Type) (to_f : A -> float) (vals : list A) po ro,
+  mono ro = true -> last ro 0 <= length vals ->
+  let v' := f_orient_polygons to_f vals po ro in
+  length v' = length vals /\
+  (forall j, j < length ro - 1 ->
+     ring_at_g v' ro j = if f_flips to_f vals po ro j then rev_ring_g (ring_at_g vals ro j)
+                         else ring_at_g vals ro j) /\
+  firstn (getn ro 0) v' = firstn (getn ro 0) vals /\
+  skipn (last ro 0) v' = skipn (last ro 0) vals.
+Proof. exact (@FloatOrientProofs.f_orient_rings_any). Qed.
+Print Assumptions C15_float_rings_same_or_reversed.
+
+(* [rev_ring_g] is the reversal of the vertex list, at any value type *)
+Theorem C15_float_rev_ring_is_reversal : forall (A : Type) (r : list A),
+  Nat.even (length r) = true -> pairs_g (rev_ring_g r) = rev (pairs_g r).
+Proof. exact (@FloatOrientProofs.pairs_rev_ring_g). Qed.
+Print Assumptions C15_float_rev_ring_is_reversal.
+
+(* the reversal loop never looks at a value: on the image [map g l] of a buffer it does what
+   it does on [l] (in particular: through a conversion g that is not injective, such as
+   int64 -> float64, the result is NOT the conversion of the exact result's preimage --
+   the code must move the values themselves) *)
+Theorem C15_float_reversal_natural : forall (A B : Type) (g : A -> B) flips ro (l : list A),
+  orient_by (map g l) flips ro = map g (orient_by l flips ro).
+Proof. exact (@FloatOrientProofs.orient_by_map). Qed.
+Print Assumptions C15_float_reversal_natural.
+
+(* whenever the binary64 area of a ring has the sign and the zero-ness of the exact doubled
+   area z, the decision is the one of the integer model (Model/Orient.v, flip_test) *)
+Theorem C15_float_decision_exact_partial : forall (a : float) (z : Z) (c : bool),
+  PrimFloat.ltb zero a = (0 <? z)%Z -> PrimFloat.eqb a zero = (z =? 0)%Z ->
+  f_flip_test a c = flip_test (Some z) c.
+Proof. exact FloatOrientProofs.f_flip_test_exact. Qed.
+Print Assumptions C15_float_decision_exact_partial.
+
+(* ---- non-vacuity, by kernel evaluation of the binary64 model ---- *)
+(* a clockwise square shell of side 2^-14 (a 7 m footprint in degrees; area 2^-28 = 3.7e-9,
+   far below any "close to zero" tolerance) is reversed *)
+Example ex_tiny_shell_flipped :
+  eqbc (f_orient_polygons (fun x => x)
+          [2; 1; 2; 0x1.0004p+0; 0x1.00008p+1; 0x1.0004p+0; 0x1.00008p+1; 1; 2; 1]%float [0; 1] [0; 10])
+       [2; 1; 0x1.00008p+1; 1; 0x1.00008p+1; 0x1.0004p+0; 2; 0x1.0004p+0; 2; 1]%float = true.
+Proof. vm_compute. reflexivity. Qed.
+(* ... and so is one of side 2^-500 (area 2^-1000) *)
+Example ex_1e300th_shell_flipped :
+  eqbc (f_orient_polygons (fun x => x)
+          [0; 0; 0; 0x1p-500; 0x1p-500; 0x1p-500; 0x1p-500; 0; 0; 0]%float [0; 1] [0; 10])
+       [0; 0; 0x1p-500; 0; 0x1p-500; 0x1p-500; 0; 0x1p-500; 0; 0]%float = true.
+Proof. vm_compute. reflexivity. Qed.
+(* an int64 ring beyond 2^53 is reversed integer for integer (its float64 images collide) *)
+Example ex_int64_ring_exact :
+  f_orient_polygons f_of_Z
+    [9007199254740993; 9007199254740995; 9007199254740993; 9007199254741011;
+     9007199254741009; 9007199254741011; 9007199254741009; 9007199254740995;
+     9007199254740993; 9007199254740995]%Z [0; 1] [0; 10]
+  = [9007199254740993; 9007199254740995; 9007199254741009; 9007199254740995;
+     9007199254741009; 9007199254741011; 9007199254740993; 9007199254741011;
+     9007199254740993; 9007199254740995]%Z.
+Proof. vm_compute. reflexivity. Qed.
+
+(* ---- the limits of a binary64 area (finite inputs on which the orientation / idempotence
+        clauses fail because the area is not what the exact area is; the harness counts
+        these classes, float_area_unreliable:*, and compares model = code on them) ---- *)
+(* overflow: a counter-clockwise square with corners about 1e200 and 2e200 (1.25 * 2^664, 1.25 * 2^665)
+   has area inf - inf = NaN:
+   it is reversed by every call, so oriented() is not idempotent on it *)
+Example ex_overflow_not_idempotent :
+  let v := [0x1.4p+664; 0x1.4p+664; 0x1.4p+665; 0x1.4p+664; 0x1.4p+665; 0x1.4p+665;
+            0x1.4p+664; 0x1.4p+665; 0x1.4p+664; 0x1.4p+664]%float in
+  let v1 := f_orient_polygons (fun x => x) v [0; 1] [0; 10] in
+  let v2 := f_orient_polygons (fun x => x) v1 [0; 1] [0; 10] in
+  eqbc v1 v = false /\ eqbc v2 v1 = false /\ eqbc v2 v = true.
+Proof. vm_compute. repeat split; reflexivity. Qed.
+(* underflow: a clockwise square of side 2^-540 has area 0.0 and stays clockwise *)
+Example ex_underflow_not_flipped :
+  let v := [0; 0; 0; 0x1p-540; 0x1p-540; 0x1p-540; 0x1p-540; 0; 0; 0]%float in
+  eqbc (f_orient_polygons (fun x => x) v [0; 1] [0; 10]) v = true.
+Proof. vm_compute. reflexivity. Qed.
+(* rounding of int64 values: the clockwise triangle (2^53+1,0) (2^53+2,1) (2^53+4,2), exact
+   doubled area -1, has float64 area 0.0 and stays clockwise *)
+Example ex_int64_sign_lost :
+  let v := [9007199254740993; 0; 9007199254740994; 1; 9007199254740996; 2; 9007199254740993; 0]%Z in
+  f_orient_polygons f_of_Z v [0; 1] [0; 8] = v /\
+  compute_area (map Some v) [0; 8] = Some (-1)%Z.
+Proof. vm_compute. split; reflexivity. Qed.
